@@ -227,7 +227,7 @@ func ruleC13(c *Ctx) {
 						okS = okIdx
 						n1, n2 := 0, 0
 						for _, lf := range sym.DeepCases(val, 64) {
-							g := sym.And(lf.Conds...)
+							g := normCmp(sym.And(lf.Conds...)) // guard clauses spell "r <= a" as "not (a < r)"
 							switch {
 							case normAgg(lf.Val) == black:
 								n1++
